@@ -3,11 +3,12 @@
 from __future__ import annotations
 
 import itertools
+import pathlib
 import re
 
 from sa import term as T
 from sa.absio import Expr, NdArr
-from sa.interp import Interp, Opaque, RaiseSignal, SVar
+from sa.interp import GenResult, Interp, Opaque, RaiseSignal, SVar
 from sa.load import AnalysisError, Repo, loc, where_of
 from sa.report import Run
 from sa.scipp_model import Model
@@ -173,9 +174,49 @@ class Da:
         return 'x'
 
 
+class _StatStub:
+    st_mtime_ns = 1_700_000_000_000_000_000
+    st_mtime = 1_700_000_000.0
+    st_size = 4242
+
+
+class _PathStub(pathlib.PurePosixPath):
+    """A path of the file system the analysis does not touch: the same file under every spelling, unchanged between the calls."""
+
+    def resolve(self, strict=False):
+        return self
+
+    def absolute(self):
+        return self
+
+    def expanduser(self):
+        return self
+
+    def exists(self):
+        return True
+
+    def is_file(self):
+        return True
+
+    def stat(self):
+        return _StatStub()
+
+
 class OpenedFile:
+    n_rows = 3
+
     def __init__(self, args, kwargs):
         self.args, self.kwargs = args, kwargs
+
+    def __iter__(self):
+        # the lines of the table (one per row; what is in them is not modelled: whoever parses them gets the cells of the row)
+        return iter([f'row {r}\n' for r in range(self.n_rows)])
+
+    def __enter__(self):
+        return self
+
+    def __exit__(self, *a):
+        return False
 
     def __repr__(self):
         return f'<file opened by the package: open{tuple(self.args)!r}>'
@@ -216,13 +257,30 @@ class XyeModel(Model):
         return super()._isinstance(interp, x, t, node)
 
     def call_ext(self, interp, path, args, kwargs, node):
+        if path == 'pathlib.Path' and args and all(isinstance(a, str | pathlib.PurePath) for a in args):
+            return _PathStub(*args)
+        if path in ('os.fspath', 'os.path.abspath', 'os.path.realpath', 'os.path.expanduser') and args and isinstance(args[0], str | pathlib.PurePath):
+            return str(args[0])
+        if path in ('os.stat', 'os.path.getmtime', 'os.path.getsize') and args and isinstance(args[0], str | pathlib.PurePath):
+            return _StatStub() if path == 'os.stat' else 4242
         if path == 'builtins.open':
-            return OpenedFile(args, dict(kwargs))  # a file object the package opened itself (not the target it was given)
+            f_ = OpenedFile(args, dict(kwargs))  # a file object the package opened itself (not the target it was given)
+            f_.n_rows = self.table_rows
+            return f_
         if path == 'numpy.savetxt':
             self.saves.append((args, dict(kwargs), interp.where(node)))
             return None
         if path == 'numpy.loadtxt':
             self.loads.append((args, dict(kwargs), interp.where(node)))
+            src = args[0] if args else kwargs.get('fname')
+            if isinstance(src, list | GenResult) and all(isinstance(x, str) for x in list(src)):
+                # numpy.loadtxt also reads an iterable of lines: as many rows as it is handed
+                lines = list(src)
+                saved, self.table_rows = self.table_rows, len(lines)
+                try:
+                    return self.loaded(kwargs)
+                finally:
+                    self.table_rows = saved
             return self.loaded(kwargs)
         if path in ('numpy.column_stack', 'numpy.stack', 'numpy.vstack', 'numpy.array', 'numpy.asarray', 'numpy.hstack') and args \
                 and isinstance(args[0], list | tuple) and all(isinstance(x, SVar) for x in args[0]):
@@ -507,13 +565,24 @@ def run(tier: str) -> Run:
     # ---- load side ------------------------------------------------------------------------
     load_kwargs = None
     load_problems = {}
-    for nrows in (3, 1):
+    for nrows in (3, 1, 20):
         T.reset()
         model = XyeModel()
         model.table_rows = nrows
         it = Interp(repo, model)
-        for coord_arg in (None, 'tof'):
-            outs = it.run_all(lambda i, c=coord_arg: i.call_function(lfi, ['file.xye'], {'dim': 'd', 'unit': 'counts', 'coord_unit': 'us', 'coord': c}))
+        for coord_arg in (None, 'tof', 'second load of the same file'):
+            if coord_arg == 'second load of the same file':
+                # history: the file is loaded twice in one world (module-level tables and caches persist); the second table is judged
+                coord_arg = None
+
+                def twice(i):
+                    kw = {'dim': 'd', 'unit': 'counts', 'coord_unit': 'us', 'coord': None}
+                    i.call_function(lfi, ['file.xye'], dict(kw))
+                    i.end_of_call()
+                    return i.call_function(lfi, ['file.xye'], dict(kw))
+                outs = it.run_all(twice)
+            else:
+                outs = it.run_all(lambda i, c=coord_arg: i.call_function(lfi, ['file.xye'], {'dim': 'd', 'unit': 'counts', 'coord_unit': 'us', 'coord': c}))
             for o in outs:
                 key = 'one-row' if nrows == 1 else 'load columns'
                 if o.kind != 'return' or not isinstance(o.value, SVar) or o.value.kind != 'dataarray':
@@ -524,7 +593,7 @@ def run(tier: str) -> Run:
                     continue
                 load_kwargs = model.loads[-1][1]
                 target = model.loads[-1][0][0] if model.loads[-1][0] else load_kwargs.get('fname')
-                if target != 'file.xye':
+                if not (isinstance(target, str | pathlib.PurePath) and pathlib.PurePosixPath(target).name == 'file.xye'):
                     # numpy decides from the target how to read it (compression by suffix, encoding), as savetxt did when writing
                     load_problems.setdefault('load columns', f'numpy.loadtxt is handed {target!r} instead of the target given to load_xye')
                 da = o.value
